@@ -183,6 +183,21 @@ def run(ctx):
     ctx.check(f"extent=({hp}.bins[0][0, 0], {hp}.bins[0][-1, 1], {hp}.bins[1][0, 0], {hp}.bins[1][-1, 1])" in ti and "data.T[::-1, :]" in ti
               and f"data = get_data({hp}, density=density)" in ti, "C20.b", "matplotlib.image", "extent = first / last edges of both axes; data transposed and flipped for imshow",
               "image extent / orientation / data source changed", img.where)
+    ok_reg = False
+    for n in ast.walk(img.node):
+        if isinstance(n, ast.For) and U(n.iter) in (f"{hp}._binnings", f"{hp}.binnings"):
+            v = U(n.target)
+            for st in n.body:
+                if isinstance(st, ast.If) and U(st.test) == f"not {v}.is_regular()" and any(isinstance(b, ast.Raise) for b in st.body):
+                    ok_reg = True
+        if isinstance(n, ast.If) and any(isinstance(b, ast.Raise) for b in n.body):
+            t = U(n.test)
+            if t.startswith("not all(") and "is_regular()" in t and "_binnings" in t:
+                ok_reg = True
+            if t.startswith("any(not ") and "is_regular()" in t and "_binnings" in t:
+                ok_reg = True
+    ctx.check(ok_reg, "C20.b", "matplotlib.image:regular-bins-only", "refused as soon as any axis has irregular bins (pixels are equally spaced)",
+              "image() no longer refuses a histogram when at least one axis is irregular (`any` where `all` is needed?) - cells would be drawn off the bin edges", img.where)
     for name, x in (("bar", "bin_centers"), ("_line_or_scatter", "bin_centers")):
         fi = pl.functions.get(name)
         ctx.saw(fi)
